@@ -435,6 +435,10 @@ def reaching_value(node, name: str):
                 return prev.value
             if isinstance(prev, ast.AnnAssign) and isinstance(prev.target, ast.Name) and prev.target.id == name and prev.value is not None:
                 return prev.value
+            if isinstance(prev, ast.Assign) and len(prev.targets) == 1 and isinstance(prev.targets[0], ast.Tuple) and isinstance(prev.value, ast.Tuple) and len(prev.targets[0].elts) == len(prev.value.elts):
+                for t_, v_ in zip(prev.targets[0].elts, prev.value.elts):
+                    if isinstance(t_, ast.Name) and t_.id == name:
+                        return v_
             if any(isinstance(x, ast.Name) and x.id == name and isinstance(x.ctx, ast.Store) for x in ast.walk(prev)):
                 return None
         st = parent(st)
